@@ -1,5 +1,5 @@
 (** Proofs/InferWrite.v — well-formedness of what inference writes (C19). *)
-From Coq Require Import ZArith List Bool Lia Sorted.
+From Coq Require Import ZArith List Bool Lia Sorted Arith.
 From NS Require Import Model.InferWrite.
 Import ListNotations.
 Local Open Scope Z_scope.
@@ -306,19 +306,22 @@ Proof.
   destruct Hy as [<-|Hy]; [left; reflexivity | right; auto].
 Qed.
 
-(** Everything the property says about the chord annotations, for any frame grid
-    that is strictly increasing. *)
-Theorem chords_written_wf times figs lo :
-  incr lo times ->
+(** Everything the property says about the chord annotations written for a path
+    [figs] over a frame grid [times] (the same loop writes key signatures from
+    the path of keys). *)
+Definition chords_wf (lo : Z) (times figs : list Z) : Prop :=
   let frames := combine times figs in
   let w := chords_written times figs in
   sublist w frames /\                                        (* at most one per frame, in frame order *)
   (forall t f, In (t, f) w -> In t times) /\                 (* on frame boundaries *)
-  strictly_increasing lo w /\                                (* times strictly increasing *)
+  strictly_increasing lo w /\                                (* times strictly increasing (after lo) *)
   adjacent_differ None w /\                                  (* consecutive symbols differ *)
   (forall t f, In (t, f) frames -> in_force None w t = Some f).  (* reading back gives the inferred path *)
+
+Theorem chords_written_wf times figs lo : incr lo times -> chords_wf lo times figs.
 Proof.
-  intros Hi frames w. unfold w, chords_written. fold frames.
+  intros Hi. unfold chords_wf, chords_written.
+  set (frames := combine times figs).
   pose proof (incr_combine times lo figs Hi) as Hs. fold frames in Hs.
   split; [apply write_chords_sublist|]. split; [|split; [|split]].
   - intros t f Hin. apply (sublist_In _ _ (write_chords_sublist frames None)) in Hin.
@@ -326,6 +329,32 @@ Proof.
   - apply write_chords_increasing. exact Hs.
   - apply write_chords_differ.
   - apply write_chords_in_force with (lo := lo). exact Hs.
+Qed.
+
+(* quantized sequence: frame k starts at k * seconds_per_chord *)
+Theorem chords_written_wf_quantized spc figs : 0 < spc ->
+  let times := frame_times_fixed spc (length figs) in
+  length times = length figs /\
+  (forall k, (k < length figs)%nat -> nth k times 0 = Z.of_nat k * spc) /\
+  chords_wf (-1) times figs.
+Proof.
+  intros Hs times. split; [|split].
+  - unfold times, frame_times_fixed. rewrite map_length, seq_length. reflexivity.
+  - intros k Hk. apply frame_times_fixed_nth. exact Hk.
+  - apply chords_written_wf. apply frame_times_fixed_incr. exact Hs.
+Qed.
+
+(* beat-annotated sequence: frames start at 0 and at the distinct beat times strictly inside the
+   sequence, whatever the storage order / multiplicity / range of the beat annotations *)
+Theorem chords_written_wf_beats beats total figs :
+  let times := frame_times_beats beats total in
+  (forall t, In t times <-> t = 0 \/ (In t beats /\ 0 < t < total)) /\
+  chords_wf (-1) times figs.
+Proof.
+  intros times. split.
+  - intros t. unfold times, frame_times_beats. cbn [In].
+    destruct (interior_beats_spec beats total) as [_ Hu]. rewrite Hu. intuition.
+  - apply chords_written_wf. apply frame_times_beats_incr.
 Qed.
 
 (** ** melody frames *)
@@ -381,4 +410,72 @@ Proof.
   intros Hr Htot. destruct (event_times_spec starts ends total Hr) as [Hi Hu].
   apply melody_written_wf; [exact Hi | | exact Htot].
   intros t Ht. apply Hu in Ht. lia.
+Qed.
+
+(** ** frame summaries (sequence_note_frames): an onset mark sits in the frame
+    that starts exactly at the start time of a real note of that pitch *)
+Lemma incr_filter_le_nil l : forall lo s, incr lo l -> s <= lo -> filter (fun u => u <=? s) l = [].
+Proof.
+  induction l as [|x r IH]; intros lo s Hi Hs; [reflexivity|].
+  destruct Hi as [Hx Hr]. cbn [filter]. destruct (x <=? s) eqn:E; [lia|]. apply (IH x); [exact Hr | lia].
+Qed.
+
+Lemma bisect_right_zero et : incr 0 et -> bisect_right et 0 = 0%nat.
+Proof. intros Hi. unfold bisect_right. rewrite (incr_filter_le_nil et 0 0 Hi); [reflexivity | lia]. Qed.
+
+Lemma bisect_right_nth et : forall lo x0 s, incr lo et -> In s et -> nth (bisect_right et s) (x0 :: et) 0 = s.
+Proof.
+  induction et as [|t r IH]; intros lo x0 s Hi Hin; [destruct Hin|].
+  destruct Hi as [Ht Hr]. unfold bisect_right. cbn [filter].
+  destruct Hin as [<-|Hin].
+  - rewrite Z.leb_refl. cbn [length]. rewrite (incr_filter_le_nil r t t Hr) by lia. reflexivity.
+  - pose proof (incr_lower r t s Hr Hin) as Hlt.
+    destruct (t <=? s) eqn:E; [|lia]. cbn [length nth].
+    apply (IH t t s Hr Hin).
+Qed.
+
+Theorem onset_frame_starts_at_note notes total f p :
+  (forall n, In n notes -> 0 <= f_start n /\ 0 <= f_end n <= total) ->
+  let ns := frame_notes notes total in
+  let et := note_event_times ns total in
+  has_onset ns et f p = true ->
+  exists n, In n notes /\ melodic total n = true /\ f_pitch n = p /\ nth f (0 :: et) 0 = f_start n.
+Proof.
+  intros Hr ns et H. unfold has_onset in H. apply existsb_exists in H.
+  destruct H as (n & Hn & Hc). apply andb_prop in Hc. destruct Hc as [Hp Hf].
+  apply Z.eqb_eq in Hp. apply Nat.eqb_eq in Hf.
+  unfold ns, frame_notes in Hn. apply filter_In in Hn. destruct Hn as [Hin Hm].
+  exists n. repeat split; try assumption.
+  assert (Hlt : f_start n < total).
+  { unfold melodic in Hm. apply andb_prop in Hm. destruct Hm as [_ Hm]. lia. }
+  assert (Hrange : forall t, In t (map f_start ns ++ map f_end ns) -> 0 <= t <= total).
+  { intros t Ht. apply in_app_or in Ht. destruct Ht as [Ht|Ht]; apply in_map_iff in Ht; destruct Ht as (m & <- & Hm');
+      unfold ns, frame_notes in Hm'; apply filter_In in Hm'; destruct Hm' as [Hm1 Hm2];
+      specialize (Hr m Hm1); [|lia].
+    unfold melodic in Hm2. apply andb_prop in Hm2. lia. }
+  destruct (event_times_spec (map f_start ns) (map f_end ns) total Hrange) as [Hi Hu].
+  fold (note_event_times ns total) in Hi, Hu. fold et in Hi, Hu.
+  rewrite <- Hf.
+  destruct (Z.eq_dec (f_start n) 0) as [E|E].
+  - rewrite E, bisect_right_zero by exact Hi. reflexivity.
+  - apply bisect_right_nth with (lo := 0); [exact Hi|].
+    apply Hu. split.
+    + apply in_or_app. left. apply in_map. unfold ns, frame_notes. apply filter_In. split; assumption.
+    + specialize (Hr n Hin). lia.
+Qed.
+
+(* Without the [start < total] clause of [melodic] (the code before notes/C19-fix-1.diff) the
+   statement is false: a note sitting on the end of the sequence marks an onset in the
+   last frame, which starts earlier. *)
+Lemma onset_frame_needs_end_filter :
+  exists ns total f p,
+    (forall n, In n ns -> 0 <= f_start n /\ 0 <= f_end n <= total) /\
+    has_onset ns (note_event_times ns total) f p = true /\
+    forall n, In n ns -> f_pitch n = p -> nth f (0 :: note_event_times ns total) 0 <> f_start n.
+Proof.
+  exists [mkF 60 0 64 false 0; mkF 72 64 64 false 0], 64, 0%nat, 72.
+  split; [|split].
+  - intros n [<-|[<-|[]]]; cbn; lia.
+  - vm_compute. reflexivity.
+  - intros n [<-|[<-|[]]]; cbn; intros; lia.
 Qed.
